@@ -77,18 +77,27 @@ def run(ctx):
             R.check_flag_conjunct(ctx, "E4.flag", P, u.key, flag, "is_identity", ("param", "u"), False, "u")
             isv = any(c[0] == "atom" and c[1] == "term" and c[2].op == "param" and c[2].a[1] == "is_valid" for c in conj)
             ctx.ob("E4.flag", u.key + "/is_valid", isv, "flag contains the caller's scheme-match flag as a conjunct", where=where(u, bb))
-            chk = [c for c in conj if c[0] == "atom" and c[1] == "is_identity" and c[2].op == "call" and B.cname(c[2]) == "Sub::sub"]
+            # one conjunct tests a difference against the identity: G*r' - u (either sign, any spelling of the difference)
+            from ..core import poly as PL
+            from . import equations as EQ
+
+            chk = []
+            for c in conj:
+                if c[0] == "atom" and c[1] == "is_identity":
+                    pc = PL.up_to_sign(PL.poly(c[2], EQ.std_atom()))
+                    if len(pc) == 2 and pc.get(("u",)) in (1, -1):
+                        other = [(m, k) for m, k in pc.items() if m != ("u",)]
+                        m, k = other[0]
+                        rs = [x for x in m if not isinstance(x, str)]
+                        if k == -pc[("u",)] and len(m) == 2 and "G" in m and len(rs) == 1:
+                            chk.append(rs[0])
             ok = len(chk) == 1 and len(conj) == 4
             if ok:
-                sub = chk[0][2]
-                l, r_ = [B.peel(x) for x in sub.a[1]]
-                ok = r_.op == "param" and r_.a[1] == "u" and l.op == "call" and B.cname(l) == "Mul::mul" and B.peel(l.a[1][0]).op == "call" and B.cname(B.peel(l.a[1][0])) == "Group::generator"
-                if ok:
-                    rr = strip_sites(inline(P, l.a[1][1], 2, only=K.local_inliner(P)))
-                    # r' depends on the recovered alpha (compute_v) and on the recovered message (value of the option)
-                    dep_alpha = any(x.op == "call" and B.cname(x) == "BlsTimeCrypt::compute_v" for x in subterms(rr))
-                    dep_msg = any(x.op == "call" and B.cname(x) in ("Digest::digest",) for x in subterms(rr))
-                    ok = dep_alpha and dep_msg
+                rr = strip_sites(inline(P, chk[0], 2, only=K.local_inliner(P)))
+                # r' depends on the recovered alpha (compute_v) and on the recovered message (value of the option)
+                dep_alpha = any(x.op == "call" and B.cname(x) == "BlsTimeCrypt::compute_v" for x in subterms(rr))
+                dep_msg = any(x.op == "call" and B.cname(x) in ("Digest::digest",) for x in subterms(rr))
+                ok = dep_alpha and dep_msg
             ctx.ob("E4.flag", u.key + "/rederive", ok, "flag = is_identity(G*r' - u) & is_valid & guards, r' from recovered alpha and message: %s" % G.show_f(fm, 3)[:240], where=where(u, bb))
     # sibling agreement seal / unseal
     s_ = ctx.need_fn("E3.sides", "BlsTimeCrypt::seal")
@@ -157,7 +166,6 @@ def run(ctx):
             if tup:
                 uu = tup[0].a[1][0]
                 ok_u = uu.op == "call" and B.cname(uu) == "Mul::mul" and B.peel(uu.a[1][0]).op == "call" and B.cname(B.peel(uu.a[1][0])) == "Group::generator" and bool(sp) and any(t is uu.a[1][1] or t == uu.a[1][1] for t in subterms(strip_sites(sp[0].args[0])))
-        ctx.ob("E3.sides", "U", ok_u, "U = G*r with the r that blinds the pairing key", where=where(s_))
         # the two pairing keys as bilinear normal forms (sign and operand sensitive: K is key material, not a test)
         from . import equations as EQ
         from ..core import poly as PL
@@ -172,6 +180,10 @@ def run(ctx):
                 xs = [k for m in pu for k in m if not isinstance(k, str)]
                 if len(pu) == 1 and len(xs) == 1 and list(pu.values()) == [1] and "G" in list(pu)[0]:
                     rterm = xs[0]
+
+        # U = G*r as a polynomial (operand order / naming of the product do not matter); that this r is the one blinding K
+        # is the E5.equation obligation below
+        ctx.ob("E3.sides", "U", ok_u or rterm is not None, "U = G*r with the r that blinds the pairing key", where=where(s_))
 
         def _tl_atom(t, rterm=rterm):
             if rterm is not None and (t is rterm or strip_sites(t) == strip_sites(rterm)):
